@@ -202,7 +202,7 @@ pub fn c01_scn(name: &str, full: bool) -> ChatScn {
     s.focus = Focus::state_only(&[Cat::Membership, Cat::Ranks, Cat::UserExistence, Cat::ChanExistence, Cat::UserIdentity]);
     s.invariants = vec!["rank-set", "membership-symmetry", "dangling-member"];
     let mut probes: Vec<&'static str> = vec![];
-    for t in ["PRIVMSG #x :hi", "PRIVMSG #x :a b :c d", "PRIVMSG #x ::lead", "PRIVMSG #x :", "PRIVMSG #x :trail  ", "NOTICE {peer} : ", "NOTICE #x :hi", "PRIVMSG {peer} :hi", "PRIVMSG {peer} :a b :c d", "NOTICE {peer} :", "PRIVMSG {me} :hi", "PRIVMSG #x,{peer} :hi", "NOTICE #x,{peer} :hi", "PRIVMSG #x,#x :hi", "PRIVMSG {peer},{peer} :hi", "PRIVMSG #x,nosuch,#nochan :hi", "NOTICE #x,nosuch,#nochan :hi", "PRIVMSG @#x :hi", "PRIVMSG +#x :hi", "NOTICE +#x :hi", "PRIVMSG %#x :hi", "PRIVMSG ~#x :hi", "PRIVMSG @+#x :hi", "NOTICE @+#x :hi", "PRIVMSG #y :hi", "PRIVMSG #y,#x :a b"] {
+    for t in ["PRIVMSG #x :hi", "PRIVMSG #x :a b :c d", "PRIVMSG #x ::lead", "PRIVMSG #x :", "PRIVMSG #x :trail  ", "NOTICE {peer} : ", "NOTICE #x :hi", "PRIVMSG {peer} :hi", "PRIVMSG {peer} :a b :c d", "NOTICE {peer} :", "PRIVMSG {me} :hi", "PRIVMSG #x,{peer} :hi", "NOTICE #x,{peer} :hi", "PRIVMSG #x,#x :hi", "PRIVMSG {peer},{peer} :hi", "PRIVMSG #x,{peer},#x :hi", "NOTICE {peer},#x,nosuch,{peer} :hi", "PRIVMSG #x,nosuch,#nochan :hi", "NOTICE #x,nosuch,#nochan :hi", "PRIVMSG @#x :hi", "PRIVMSG +#x :hi", "NOTICE +#x :hi", "PRIVMSG %#x :hi", "PRIVMSG ~#x :hi", "PRIVMSG @+#x :hi", "NOTICE @+#x :hi", "PRIVMSG #y :hi", "PRIVMSG #y,#x :a b"] {
         probes.push(t);
     }
     s.probes = probes;
@@ -231,9 +231,9 @@ pub fn c01_ghost(full: bool) -> ChatScn {
 pub fn c10_scn(name: &str, full: bool) -> ChatScn {
     let mut s = ChatScn::new(name, Cfg::default(), vec![part(0, "alice", "alicia", "au"), part(1, "bob", "bobby", "bu"), part(2, "carol", "caro", "cu")], 0);
     s.prelude = vec![(0, "JOIN #c".into()), (2, "JOIN #c".into())];
-    let mut a: Vec<&'static str> = vec!["MODE #c +n", "MODE #c -n", "MODE #c +m", "MODE #c -m", "MODE #c +b bob!*@*", "MODE #c -b bob!*@*", "MODE #c +e bob!*@*", "MODE #c -e bob!*@*", "MODE #c +e zed!*@*", "MODE #c +v bob", "MODE #c -v bob"];
+    let mut a: Vec<&'static str> = vec!["MODE #c +n", "MODE #c -n", "MODE #c +s", "MODE #c -s", "MODE #c +m", "MODE #c -m", "MODE #c +b bob!*@*", "MODE #c -b bob!*@*", "MODE #c +e bob!*@*", "MODE #c -e bob!*@*", "MODE #c +e zed!*@*", "MODE #c +v bob", "MODE #c -v bob"];
     if full {
-        a.extend(["MODE #c +s", "MODE #c -s", "MODE #c -e zed!*@*", "MODE #c +b *!*@127.0.0.1", "MODE #c +h bob", "MODE #c +e *!~bu@*"]);
+        a.extend(["MODE #c -e zed!*@*", "MODE #c +b *!*@127.0.0.1", "MODE #c +h bob", "MODE #c +e *!~bu@*"]);
     }
     for t in a {
         s.alphabet_for.push((0, t));
@@ -522,6 +522,11 @@ pub fn c08_matrix(full: bool) -> Vec<Script> {
                 for sign in ["+", "-"] {
                     out.push(Script { cfg: oper_cfg(), users: users(), prelude: base(tset), slot: 1, line: format!("MODE #c {}{} carol", sign, letter) });
                 }
+            }
+            // letters needing different ranks, each with its own parameter: a refused letter
+            // still consumes its parameter
+            for l in ["MODE #c +ov carol alice", "MODE #c +qv carol alice", "MODE #c +av-v alice carol carol", "MODE #c +hl carol 9", "MODE #c +ob carol m2"] {
+                out.push(Script { cfg: oper_cfg(), users: users(), prelude: base(tset), slot: 1, line: l.to_string() });
             }
             if !full {
                 continue;
